@@ -104,7 +104,12 @@ var targets = []target{
 		Locals: []string{"supply_OutgoingSupply"}, Guards: true, Conds: true},
 	{Group: "HtlcId", Mod: "htlc", Pkg: "types", Func: "GetHashLock", Lean: "GetHashLock"},
 	{Group: "HtlcId", Mod: "htlc", Pkg: "types", Func: "GetID", Lean: "GetID", Opaque: true},
-	{Group: "Htlc", Mod: "htlc", Pkg: "keeper", Func: "Keeper.createHTLT", Lean: "createHTLT", Guards: true, Conds: true},
+	{Group: "Htlc", Mod: "htlc", Pkg: "keeper", Func: "Keeper.createHTLT", Lean: "createHTLT", Guards: true, Conds: true,
+		Calls: []string{"IncrementIncomingAssetSupply", "IncrementOutgoingAssetSupply"}},
+	{Group: "Htlc", Mod: "htlc", Pkg: "keeper", Func: "Keeper.claimHTLT", Lean: "claimHTLT", Guards: true, Conds: true,
+		Calls: []string{"IncrementCurrentAssetSupply", "DecrementCurrentAssetSupply", "IncrementIncomingAssetSupply", "DecrementIncomingAssetSupply", "IncrementOutgoingAssetSupply", "DecrementOutgoingAssetSupply"}},
+	{Group: "Htlc", Mod: "htlc", Pkg: "keeper", Func: "Keeper.refundHTLT", Lean: "refundHTLT", Guards: true, Conds: true,
+		Calls: []string{"IncrementCurrentAssetSupply", "DecrementCurrentAssetSupply", "IncrementIncomingAssetSupply", "DecrementIncomingAssetSupply", "IncrementOutgoingAssetSupply", "DecrementOutgoingAssetSupply"}},
 	{Group: "Htlc", Mod: "htlc", Pkg: "keeper", Func: "Keeper.UpdateTimeBasedSupplyLimits", Lean: "UpdateWindow",
 		Locals: []string{"newTimeElapsed", "supply_TimeElapsed"}, Guards: true, Conds: true},
 	{Group: "Mt", Mod: "mt", Pkg: "keeper", Func: "Keeper.AddBalance", Lean: "AddBalance", Locals: []string{"balance"}, Guards: true, Conds: true},
